@@ -85,6 +85,11 @@ const KEYWORD_PATTERNS: &[(&str, &str)] = &[
   ("TypeScript", "const $A = $B"),
   ("Rust", "let mut $A = $B;"),
   ("Go", "var $A = $B"),
+  // keywords are case-insensitive in PHP: one token kind, several spellings
+  ("Php", "function $A() {}"),
+  ("Php", "echo $A;"),
+  ("Php", "return $A;"),
+  ("Php", "class $A {}"),
 ];
 
 fn is_word(s: &str) -> bool {
@@ -181,6 +186,12 @@ pub fn interpret(corpus: &Corpus, opts: &SrcOpts, ch: &Choice, st: &mut Stats) -
           let to = if fixed.chars().all(|c| c.is_ascii_digit()) { "7".repeat(fixed.len() + 1) } else { format!("{fixed}q") };
           let renamed = replace_word(&first.text, &fixed, &to);
           files.push((format!("renamed.{ext}"), renamed));
+          // the same token in another spelling (a keyword of a case-insensitive language still
+          // is the same token; elsewhere the file simply stops matching)
+          let recased = if fixed.chars().any(|c| c.is_ascii_lowercase()) { fixed.to_ascii_uppercase() } else { fixed.to_ascii_lowercase() };
+          if recased != fixed {
+            files.push((format!("recased.{ext}"), replace_word(&first.text, &fixed, &recased)));
+          }
         }
       }
     }
@@ -417,6 +428,78 @@ pub fn check(case: &Case, st: &mut Stats) -> CheckResult {
   Ok(())
 }
 
+// ---------------------------------------------------------------------------------------
+// respelling: PHP keywords are case-insensitive, so one anonymous token kind has several
+// spellings; the pattern's spelling need not occur in a file that matches
+
+#[derive(Clone, Debug)]
+pub struct RespellChoice {
+  files: Vec<Vec<(u8, u8, u8)>>,
+  pattern: u8,
+  pattern_case: u8,
+  strict: u8,
+}
+
+pub fn respell_strategy() -> BoxedStrategy<RespellChoice> {
+  (prop::collection::vec(prop::collection::vec((0u8..6, 0u8..3, 0u8..4), 1..5), 1..4), 0u8..6, 0u8..3, 0u8..4)
+    .prop_map(|(files, pattern, pattern_case, strict)| RespellChoice {
+      files,
+      pattern,
+      pattern_case,
+      strict,
+    })
+    .boxed()
+}
+
+fn respell(word: &str, how: u8) -> String {
+  match how {
+    0 => word.to_string(),
+    1 => word.to_ascii_uppercase(),
+    _ => word.chars().enumerate().map(|(i, c)| if i % 2 == 0 { c.to_ascii_uppercase() } else { c }).collect(),
+  }
+}
+
+const PHP_STMTS: &[(&str, &str)] = &[
+  ("function", "function foo() {}"),
+  ("echo", "echo 1;"),
+  ("return", "return 2;"),
+  ("class", "class Foo {}"),
+  ("while", "while (1) {}"),
+  ("function", "function bar() {}"),
+];
+
+pub fn interpret_respell(ch: &RespellChoice, _st: &mut Stats) -> Option<Case> {
+  let names = ["1", "2", "foo", "Foo"];
+  let files = ch
+    .files
+    .iter()
+    .enumerate()
+    .map(|(i, stmts)| {
+      let body: Vec<String> = stmts
+        .iter()
+        .map(|(k, how, n)| {
+          let (kw, text) = PHP_STMTS[*k as usize % PHP_STMTS.len()];
+          let text = text.replacen(kw, &respell(kw, *how), 1);
+          // vary the operand so that not every file matches
+          if *n == 0 { text } else { text.replace("foo", names[*n as usize % 4]).replace('1', names[(*n as usize + 1) % 2]) }
+        })
+        .collect();
+      (format!("{}p{i}.php", if i % 2 == 1 { "sub/" } else { "" }), format!("<?php\n{}\n", body.join("\n")))
+    })
+    .collect();
+  let (kw, text) = PHP_STMTS[ch.pattern as usize % PHP_STMTS.len()];
+  let pattern = text.replacen(kw, &respell(kw, ch.pattern_case), 1).replace("foo", "$A").replace("Foo", "$A");
+  Some(Case {
+    lang: "Php".into(),
+    files,
+    query: Query::Run {
+      pattern,
+      selector: None,
+      strictness: [None, Some("smart"), Some("cst"), None][ch.strict as usize % 4].map(String::from),
+    },
+  })
+}
+
 pub fn run_stage(cfg: &RunCfg, known: &Known, corpus: &Corpus, report: &mut Report) {
   let mut opts = SrcOpts::all_langs();
   opts.max_bytes = 1200;
@@ -424,6 +507,10 @@ pub fn run_stage(cfg: &RunCfg, known: &Known, corpus: &Corpus, report: &mut Repo
   opts.synth_weight = 5;
   let total = cfg.budget(400, 5_000);
   let o = drive(cfg, "cli", total, known, || strategy(&opts), |c, st| interpret(corpus, &opts, c, st), check);
+  report.absorb("cli", o);
+  // the stage name stays "cli": the replay files of both generators hold the same case type
+  let total = cfg.budget(120, 3_000);
+  let o = drive(cfg, "cli", total, known, respell_strategy, interpret_respell, check);
   report.absorb("cli", o);
   report.floor("prefilter_miss", 0.03, "cli_nontrivial");
   cli::cleanup_work_root();
